@@ -151,6 +151,35 @@ def merge_rules(R, pfx="C07"):
                 R.viol(pfx + ".reg.merge", "merge-missing", "no merged register is produced when a local copy exists", rv, rv.lines[0])
         else:
             R.viol(pfx + ".reg.merge", "present-branch", "register_validation does not branch on present_locally", rv, rv.lines[0])
+    # what is handed back for storing when a local copy exists is the *merged* register (the receiver of verified_merge), not the
+    # incoming one
+    if rv is not None:
+        prep(rv)
+        vm = [blk for blk in rv.blocks if blk["term"]["k"] == "call" and not blk["cleanup"] and callee_matches(blk["term"], [SR + "::verified_merge"])]
+        okp = bool(vm)
+        if vm:
+            ta_ = Taint(rv)
+            recv = set()
+            for blk in vm:
+                l0 = op_local(blk["term"]["args"][0])
+                recv |= ta_.ref_of.get(l0, set()) | {l0}
+            merged = Taint(rv).closure(recv)
+            incoming = Taint(rv, extra_transparent=["alloc::borrow::ToOwned::to_owned", "*ToOwned>::to_owned"]).closure(PL(rv, 1))
+            g2 = cfg_of(rv)
+            after = set()
+            for blk in vm:
+                after |= g2.reach(tuple(d for d, _ in g2.succ[blk["id"]]))
+            for blk in rv.blocks:
+                if blk["id"] not in after or blk["cleanup"]:
+                    continue
+                for st in blk["stmts"]:
+                    rvv = st["rv"]
+                    if rvv["k"] == "agg" and rvv.get("variant") == "Some" and "SignedRegister" in rv.locals.get(str(st["d"][0]), ""):
+                        o = op_local(rvv["ops"][0])
+                        if o not in merged or o in incoming - merged:
+                            okp = False
+                            R.viol(pfx + ".reg.merged", "stores-incoming", "after merging with the local copy register_validation hands back something other than the merged register: operations only the local replica had are lost", rv, st["l"])
+        R.inst(pfx + ".reg.merged", "K6 flows-to", "with a local copy, Some(..) carries the merged register", len(vm), okp)
     # "nothing to update" (Ok(None)) is answered only when the merge left the local register unchanged; a merge that brought new
     # operations yields the merged register
     if rv is not None:
